@@ -841,6 +841,7 @@ func layoutFromFunc(f *cat.Fn, ft reflect.Type) (*layout, error) {
 			g := rgroup{obj: true, typ: t}
 			for j := 1; j < t.NumField(); j++ {
 				g.idxs = append(g.idxs, idx)
+				g.tree = append(g.tree, pnode{idx: idx})
 				idx++
 			}
 			l.rs = append(l.rs, g)
